@@ -20,8 +20,9 @@ KF_FILE = os.path.join(VERIF, "known_findings.json")
 
 
 class Job:
-    def __init__(self, obligation, fn, params=None, cost=1, max_paths=200000, budget_s=1500, shards=1):
+    def __init__(self, obligation, fn, params=None, cost=1, max_paths=200000, budget_s=1500, shards=1, crosscheck=False):
         self.shards = shards
+        self.crosscheck = crosscheck  # closed lemma: re-check every query with /usr/bin/z3 and cvc5
         self.obligation = obligation
         self.fn = fn
         self.params = params or {}
@@ -103,11 +104,12 @@ def run_job(args):
     eng = ENGINE
     eng.reset_stats()
     eng.shard = shard
+    eng.crosscheck = job.crosscheck
     open_kf = open_finding_ids(mod.PROPERTY)
     res = {"job": job.key() + ("" if shard is None else " shard %d/%d" % (shard[0] + 1, shard[1])), "obligation": job.obligation, "params": job.params, "paths": 0,
            "completed": 0, "aborted": 0, "decisions": 0, "queries": 0, "solver_s": 0.0,
            "validated": 0, "violation": None, "inconclusive": None, "functions": [],
-           "labels": {}, "reach": {}, "samples": [], "harness_error": None, "wall_s": 0.0}
+           "labels": {}, "reach": {}, "samples": [], "harness_error": None, "wall_s": 0.0, "cross": []}
     funcs = set()
     t0 = time.time()
     work = [[]]
@@ -219,6 +221,7 @@ def run_job(args):
     res["solver_s"] = round(eng.solver_s, 3)
     res["labels"] = dict(eng.labels)
     res["functions"] = sorted(funcs)
+    res["cross"] = list(eng.cross)
     if eng.sites:
         print("fork sites of %s:" % job.key())
         for k, n in sorted(eng.sites.items(), key=lambda kv: -kv[1])[:25]:
@@ -436,6 +439,7 @@ def main(mod, argv=None):
             "paths_completed": tot("completed"), "paths_infeasible_or_assumed_away": tot("aborted"),
             "queries": tot("queries"), "solver_s": round(tot("solver_s"), 2),
             "check_labels_reached": labels,
+            "cross_solver": _cross_summary(results),
             "functions_encoded": funcs,
             "ifconv_sites": _ifconv_sites(),
             "bounds": meta.get("bounds", {}).get(tier, meta.get("bounds", "")),
@@ -461,6 +465,18 @@ def main(mod, argv=None):
         prop, tier, len(results), discharged, tot("paths"), tot("queries"), tot("solver_s"),
         tot("validated"), wall, exit_code))
     return exit_code
+
+
+def _cross_summary(results):
+    """closed lemmas re-checked with /usr/bin/z3 4.8.12 and cvc5 1.0 (SMT-LIB2 dump of the same query)"""
+    out = {"queries": 0}
+    for r in results:
+        for c in r.get("cross", []):
+            out["queries"] += 1
+            for name, ans in c.items():
+                key = "%s:%s" % (name, ans.split(":")[0])
+                out[key] = out.get(key, 0) + 1
+    return out
 
 
 def _ifconv_sites():
